@@ -7,10 +7,29 @@ CITER = {"list": list, "reversed": lambda cs: list(reversed(cs)), "dropfirst": l
          "droplast": lambda cs: list(cs)[:-1], "sortdesc": lambda cs: sorted(cs, key=lambda n: -n.lbl)}
 
 
+class StrNode(AnyNode):
+    """str() and repr() of a node differ: the rendered text must show the repr"""
+
+    def __str__(self):
+        return "str-of-%s" % (self.lbl,)
+
+
+_STRCLS = {}
+
+
+def node_class():
+    import implutil
+    base = implutil.adv(AnyNode)
+    if base is AnyNode:
+        return StrNode
+    if base not in _STRCLS:
+        _STRCLS[base] = type("Str" + base.__name__, (base,), {"__str__": StrNode.__str__})
+    return _STRCLS[base]
+
+
 def build(t, vals, parent=None):
     lbl, cs = t
-    import implutil
-    n = implutil.adv(AnyNode)(parent=parent, lbl=lbl, val=vals[str(lbl)])
+    n = node_class()(parent=parent, lbl=lbl, val=vals[str(lbl)])
     for c in cs:
         build(c, vals, n)
     return n
@@ -61,6 +80,14 @@ def run_case(c):
         lines = {str(n.lbl): repr(n).splitlines() for _, _, n in rt}
     if snapshot(root.root) != before:
         return {"crash": "rendering modified the tree"}
+    # one RenderTree object may be iterated again after an abandoned iteration, and by two consumers at once
+    it = iter(rt)
+    for _ in range(len(rows) // 2):
+        next(it)
+    again = [[pre, fill, node.lbl] for pre, fill, node in rt]
+    both = [[[p1, f1, n1.lbl], [p2, f2, n2.lbl]] for (p1, f1, n1), (p2, f2, n2) in zip(rt, rt)]
+    if again != rows or any(a != b for a, b in both) or [a for a, _ in both] != rows:
+        return {"crash": "a second / simultaneous iteration of the same RenderTree yields different rows"}
     return {"rows": rows, "text": text, "lines": lines}
 
 
